@@ -217,7 +217,10 @@ class X86:
         elif mn in ("call", "callq", "calll"):
             snapshot = {"regs": dict(m.regs), "sp": m.sp, "mem": dict(m.mem), "target": sym}
             m.calls.append(snapshot)
-            # the callee returns: return address pushed and popped, nothing else modelled here
+            # the callee returns: return address pushed and popped; a callee that
+            # cleans up its own stack arguments (stdcall-like) pops them too
+            m.sp = m.sp + getattr(m, "callee_pop", 0)
+            m.flags = fresh()
         elif mn == "nop":
             pass
         else:
